@@ -269,16 +269,100 @@ pub fn check_read(e: En, kind_bits: usize, x: u64, mode: u8, rep: &mut Report) {
     }
 }
 
+/// A bulk copy of more than 2^32 bits between sparse streams (path 0: reader.copy_to, 1: writer.copy_from).
+macro_rules! copy_case {
+    ($E:ty, $RW:ty, $WW:ty, $e:expr, $n:expr, $path:expr, $rep:expr) => {{
+        let e: En = $e;
+        let n: u64 = $n;
+        let path: u8 = $path;
+        let rep: &mut Report = $rep;
+        let rnb = <$RW as HWord>::NBITS as u64;
+        let wnb = <$WW as HWord>::NBITS as u64;
+        let kvf = || format!("huge=copy e={} rw={} ww={} n={} path={}", e.name(), <$RW as HWord>::WNAME, <$WW as HWord>::WNAME, n, path);
+        let sig = format!("{}|{}->{}|huge-copy|{}", e.name(), <$RW as HWord>::WNAME, <$WW as HWord>::WNAME, if path == 0 { "copy_to" } else { "copy_from" });
+        let frag = |seed: u64, len: usize| -> Bits { (0..len).map(|i| ((seed.wrapping_mul(0x9E37_79B9_7F4A_7C15) >> (i % 61)) & 1) as u8 | (i == 0) as u8).collect() };
+        let (f0, f1, f2) = (frag(1, 40), frag(2, 40), frag(3, 40));
+        let mut suf: Bits = vec![];
+        push_bits(&mut suf, e, 0x0fed_cba9_8765, 48);
+        let mut pre: Bits = vec![];
+        push_bits(&mut pre, e, 0b10110, 5);
+        let mid = n / 2 + 13;
+        let src = sparse_image(e, &[(0, pre), (5, f0.clone()), (5 + mid, f1.clone()), (5 + n - 40, f2.clone()), (5 + n, suf)]);
+        let total = (5 + n + 48).div_ceil(rnb) + 2;
+        let mut r = BufBitReader::<$E, _>::new(SparseRead::<$RW>::new(&src, total, total + 64));
+        let mut w = BufBitWriter::<$E, _>::new(SparseWrite::<$WW>::new((n + 200) / wnb + 8));
+        let a = guard(|| r.read_bits(5).map_err(|e| e.to_string()));
+        let b = guard(|| w.write_bits(0b101, 3).map_err(|e| e.to_string()));
+        let c = if path == 0 { guard(|| r.copy_to(&mut w, n).map_err(|e| format!("{:?}", e))) } else { guard(|| w.copy_from(&mut r, n).map_err(|e| format!("{:?}", e))) };
+        let p = guard(|| r.bit_pos().map_err(|e| e.to_string()));
+        let nx = guard(|| r.read_bits(48).map_err(|e| e.to_string()));
+        let d = guard(|| w.write_bits(0x2b, 7).map_err(|e| e.to_string()));
+        let fl = guard(|| w.flush().map_err(|e| e.to_string()));
+        rep.eval(4);
+        rep.case(&("huge-copy", e, <$RW as HWord>::WNAME, <$WW as HWord>::WNAME, n, path));
+        if a != Out::Ok(0b10110) || !b.is_ok() || !c.is_ok() || p != Out::Ok(5 + n) || nx != Out::Ok(0x0fed_cba9_8765) || !d.is_ok() || !fl.is_ok() {
+            rep.violation(
+                &format!("{}|{}", sig, if !c.is_ok() { c.class() } else { "source-after-copy".to_string() }),
+                || format!("copy of {} bits: copy = {}, source position {} (expected {}), next 48 bits {}, destination write {} flush {}", n, c.show(), p.show(), 5 + n, nx.show(), d.show(), fl.show()),
+                kvf,
+            );
+        } else {
+            match guard(|| w.into_inner().map_err(|e| e.to_string())) {
+                Out::Ok(be) => {
+                    let mut dpre: Bits = vec![];
+                    push_bits(&mut dpre, e, 0b101, 3);
+                    let mut dsuf: Bits = vec![];
+                    push_bits(&mut dsuf, e, 0x2b, 7);
+                    let exp = sparse_image(e, &[(0, dpre), (3, f0), (3 + mid, f1), (3 + n - 40, f2), (3 + n, dsuf)]);
+                    let exp_words = (3 + n + 7).div_ceil(wnb);
+                    let got = be.bytes();
+                    if be.words != exp_words || got != exp {
+                        rep.violation(
+                            &format!("{}|{}", sig, if be.words != exp_words { "word-count" } else { "bits-misplaced" }),
+                            || format!("copy of {} bits: destination got {} words (expected {}), non-zero bytes [{}] expected [{}]", n, be.words, exp_words, show_map(&got), show_map(&exp)),
+                            kvf,
+                        );
+                    }
+                }
+                o => rep.violation(&format!("{}|into_inner|{}", sig, o.class()), || o.show(), kvf),
+            }
+        }
+    }};
+}
+
+pub fn check_copy(e: En, combo: usize, n: u64, path: u8, rep: &mut Report) {
+    match (e, combo % 4) {
+        (En::BE, 0) => copy_case!(BE, u64, u64, e, n, path, rep),
+        (En::BE, 1) => copy_case!(BE, u32, u128, e, n, path, rep),
+        (En::BE, 2) => copy_case!(BE, u64, u16, e, n, path, rep),
+        (En::BE, _) => copy_case!(BE, u16, u32, e, n, path, rep),
+        (En::LE, 0) => copy_case!(LE, u64, u64, e, n, path, rep),
+        (En::LE, 1) => copy_case!(LE, u32, u128, e, n, path, rep),
+        (En::LE, 2) => copy_case!(LE, u64, u16, e, n, path, rep),
+        (En::LE, _) => copy_case!(LE, u16, u32, e, n, path, rep),
+    }
+}
+
 pub fn replay(case: &str, rep: &mut Report) {
     let kv = Kv::parse(case);
     let e = parse_en(kv.get("e"));
-    let wbits = match kv.get("w") {
+    let wbits = match kv.opt("w").unwrap_or("u64") {
         "u8" => 8,
         "u16" => 16,
         "u32" => 32,
         "u64" => 64,
         _ => 128,
     };
+    if kv.get("huge") == "copy" {
+        let combo = match (kv.get("rw"), kv.get("ww")) {
+            ("u64", "u64") => 0,
+            ("u32", _) => 1,
+            ("u64", _) => 2,
+            _ => 3,
+        };
+        check_copy(e, combo, kv.u64("n"), kv.get("path").parse().unwrap(), rep);
+        return;
+    }
     if kv.get("huge") == "write" {
         check_write(e, wbits, kv.u64("x"), rep);
     } else {
